@@ -18,7 +18,7 @@
 From Coq Require Import QArith String.
 From CKT Require Import Model.CutFinder Extracted.Facts
   Proofs.UFP Proofs.CutFinderSpec Proofs.CutFinderOut Proofs.CutFinderCirc Proofs.CutFinderRender Proofs.CutFinderP
-  Proofs.CutFinderFail.
+  Proofs.CutFinderFail Proofs.CutFinderFuel Proofs.CutFinderTotal.
 Close Scope Q_scope.
 
 (* the output is the input with only markers added *)
@@ -73,6 +73,20 @@ Theorem c07_fails_only_if_infeasible : forall fuel i,
   (fi_gate_lo i = true \/ fi_wire_lo i = true) ->
   forall p, plan_permitted t (fi_gate_lo i) (fi_wire_lo i) c p -> ~ feasible (fi_W i) (render t p c).
 Proof. exact fails_only_if_infeasible. Qed.
+
+(* no exception other than ValueError: none of the assertions of the actions, of check_donot_merge_roots / merge_roots /
+   new_wire, of SimpleGateList.insert_wire_cut (`src_wire_id == new_gate_spec.qubits[input_id-1]`), of NameToIDMap.define_id
+   — all executed inside LOCutsOptimizer.optimize via best_result.export_cuts(interface) — is reachable, and no list index
+   is out of range; for every circuit whose multi-qubit gates act on two distinct qubits, all settings, all tapes *)
+Theorem c07_export_never_crashes : forall fuel i,
+  circ_wf (fi_circ i) -> find_cuts_full fuel i <> Crash.
+Proof. exact find_cuts_never_crashes. Qed.
+
+(* the out-of-fuel value of the model is not an outcome: the best-first loop and the repeat-until-None driver terminate
+   within fuel_bound n = (5^(n+1) - 1)/4 + 3 pops per pass, n = number of instructions *)
+Theorem c07_terminates : forall fuel i,
+  circ_wf (fi_circ i) -> fuel_bound (length (fi_circ i)) <= fuel -> find_cuts_full fuel i <> NoFuel.
+Proof. exact find_cuts_enough_fuel. Qed.
 
 (* union-find: the path-collapsing loop of find_wire_root (left out of the model) is unobservable *)
 Theorem c07_compression_invisible : forall u w, uf_wf u ->
@@ -157,5 +171,7 @@ Print Assumptions c07_metadata.
 Print Assumptions c07_accounting.
 Print Assumptions c07_feasible.
 Print Assumptions c07_fails_only_if_infeasible.
+Print Assumptions c07_export_never_crashes.
+Print Assumptions c07_terminates.
 Print Assumptions c07_compression_invisible.
 Print Assumptions c07_facts.
